@@ -20,6 +20,9 @@ import (
 func init() {
 	pn := "internal/printer/nodes.go"
 	register(&Property{ID: "C07", Run: runC07, Mutants: []Mutant{
+		{Name: "wa printer: spread call gets a trailing comma before the dots", File: pn, Old: "p.exprList(x.Lparen, x.Args, depth, 0, x.Ellipsis, false)", New: "p.exprList(x.Lparen, x.Args, depth, commaTerm, x.Rparen, false)", Expect: "printer-sibling-agreement"},
+		{Name: "wa printer: only string literals bypass the tabwriter", File: "internal/printer/printer.go", Old: "\t\t\tdata = x.Value\n\t\t\tisLit = true", New: "\t\t\tdata = x.Value\n\t\t\tisLit = x.Kind == token.STRING", Expect: "printer-origin-agreement"},
+		{Name: "wz printer: literals are not shielded from the tabwriter", File: "internal/printer/w2printer/printer.go", Old: "\t\t\tdata = x.Value\n\t\t\tisLit = true", New: "\t\t\tdata = x.Value\n\t\t\tisLit = false", Expect: "printer-sibling-agreement"},
 		{Name: "printer loses the statement arm for empty statements", File: pn, Old: "\tcase *ast.EmptyStmt:\n\t\t// nothing to do\n", New: "", Expect: "node-exhaustive :: internal/printer"},
 		{Name: "printer no longer prints the slice capacity", File: pn, Old: "\t\tindices := []ast.Expr{x.Low, x.High}\n\t\tif x.Max != nil {\n\t\t\tindices = append(indices, x.Max)\n\t\t}", New: "\t\tindices := []ast.Expr{x.Low, x.High}", Expect: "field-coverage :: internal/printer: SliceExpr.Max"},
 		{Name: "wz sources sent through the wa pipeline", File: "internal/format/format.go", Old: "golden, err := _SourceFile_wz(text)", New: "golden, err := SourceFile(text)", Expect: "language-pairing"},
@@ -65,7 +68,8 @@ var c07NonSyntax = map[string]string{
 
 func runC07(c *Ctx) {
 	c.Explain = "Decides necessary structural clauses of 'formatting preserves the program' for both surface syntaxes: (1) node-exhaustive: every type switch over ast.Expr / ast.Stmt / ast.Decl / ast.Spec in a printer that ends in a panicking (or absent) default lists every concrete node type the paired parser constructs; " +
-		"(2) field-coverage: every non-positional, syntactic field of an AST node that the paired parser stores is read somewhere in the printer (a field the printer never reads cannot survive format); (3) language-pairing: format.File sends each detected language to the parser and the printer of that same language. " +
+		"(2) field-coverage: every non-positional, syntactic field of an AST node that the paired parser stores is read somewhere in the printer (a field the printer never reads cannot survive format); (3) language-pairing: format.File sends each detected language to the parser and the printer of that same language; " +
+		"(4) printer-sibling-agreement / printer-origin-agreement: every function, and inside functions that differ every switch arm, whose canonical syntax tree was equal between the .wa printer, the .wz printer and go/printer (the printer both were forked from, read from GOROOT) when the rule was armed (frozen list c07_siblings.txt) is still equal — a one-sided edit to shared formatting code is reported. " +
 		"NOT decided: idempotence, comment placement, line breaking, that the printed text re-parses to the same tree."
 	c.Trusted = []string{"go/packages, go/types (x/tools v0.29.0)"}
 	p := c.Load(LoadOpt{Light: true}, "./internal/ast", "./internal/parser", "./internal/parser/w2parser", "./internal/printer", "./internal/printer/w2printer", "./internal/format")
@@ -83,6 +87,9 @@ func runC07(c *Ctx) {
 	}
 	if fp := p.MustPkg("language-pairing", "internal/format"); fp != nil {
 		c07Pairing(c, p, fp)
+	}
+	if wa, wz := p.MustPkg("printer-sibling-agreement", "internal/printer"), p.MustPkg("printer-sibling-agreement", "internal/printer/w2printer"); wa != nil && wz != nil {
+		c07SiblingAgreement(c, p, wa, wz)
 	}
 }
 
